@@ -19,7 +19,8 @@ ANCHORS = ['pycaption.base:CaptionSet.adjust_caption_timing',
 REQUIRE = {'adjust_dropped_some': 5, 'adjust_dropped_all': 1, 'merge_runs': 10,
            'merge_near_runs': 5, 'merge_run_at_start': 2, 'merge_run_at_end': 2,
            'captions_without_visible_text': 50, 'captions_ending_with_break': 50,
-           'sets_observed_before_a_language_was_added': 50}
+           'sets_observed_before_a_language_was_added': 50,
+           'adjust_calls_relying_on_a_default': 50}
 
 SKEWS = [1, 1.0, 0.5, 2, 4, 0.25, 1.5, 1.001, 0.999, 1.1, 3.999, 0.04]
 
@@ -116,7 +117,8 @@ def cases(ctx):
                     offset = -((starts[k] + ends[k]) // 2) * skew
             else:
                 offset = -(max(ends) * skew) - rng.choice([1, 1000, 10 ** 6])
-            yield {'op': 'adjust', 'set': spec, 'skew': skew, 'offset': offset, 'build': build}
+            yield {'op': 'adjust', 'set': spec, 'skew': skew, 'offset': offset, 'build': build,
+                   'omit_defaults': rng.random() < 0.6}
 
 
 PROBES = ['get_languages', 'is_empty', 'adjust_identity', 'merge_if_merge', 'get_captions', 'write_dfxp']
@@ -205,7 +207,15 @@ def check(case, ctx):
         sk, off = Fraction(case['skew']), Fraction(case['offset'])
         before = {l['lang']: [(c, dump.caption(c)) for c in cs.get_captions(l['lang'])]
                   for l in spec['langs']}
-        ret = cs.adjust_caption_timing(offset=case['offset'], rate_skew=case['skew'])
+        # the defaults are part of the interface: offset=0 and rate_skew=1.0 are left out when they are meant
+        kw = {}
+        if not (case['offset'] == 0 and case.get('omit_defaults')):
+            kw['offset'] = case['offset']
+        if not (case['skew'] == 1 and case.get('omit_defaults')):
+            kw['rate_skew'] = case['skew']
+        if len(kw) < 2:
+            ctx.count('adjust_calls_relying_on_a_default')
+        ret = cs.adjust_caption_timing(**kw)
         ctx.count('adjust_calls')
         if cs.get_languages() != [l['lang'] for l in spec['langs']]:
             fails.append({'what': 'languages changed by adjust_caption_timing', 'got': cs.get_languages()})
